@@ -176,7 +176,7 @@ fn main() {
                 pts.push((i + 1, ch, idx));
             }
         }
-        let obs = open_images(&exe, &scratch, &images, &tokens, false);
+        let obs = open_images(&exe, &scratch, &images, &tokens, true);
         // ---- model
         let mut model_agrees = vec![true; images.len()];
         if let Some(d) = drv.as_mut() {
@@ -207,6 +207,12 @@ fn main() {
             if ch.dir_prefix > 0 { sum.branch("rename-without-dir-fsync-survives"); }
             sum.case(&format!("{name}/{idx}"), true, || json!({"history": name, "k": k, "choice": ch, "obs": o.logical()}));
             let mut v = judge(history, &spans, *k, o, &tokens);
+            if v.ok {
+                if let Some(d) = obs[*idx].reopen_diff() {
+                    v = Verdict { ok: false, signature: format!("reopen-after-recovery-changes-frames-after-crash-in-{}", infl.replace('_', "-")),
+                        what: format!("the first open of the survivor is as acknowledged, but {d}"), matched: "" };
+                }
+            }
             if !v.ok {
                 bad += 1;
                 v.signature = v.signature.replace("after-crash", "after-power-loss");
